@@ -116,7 +116,8 @@ def _validate_url_schemes(
     except Exception as err:
         raise ValueError("Invalid YAML string") from err
     if isinstance(output, str):
-        output = {k: None for k in output.split(",")}
+        # (as docutils' comma-separated lists: white space around the items is not part of them)
+        output = {k.strip(): None for k in output.split(",") if k.strip()}
     if not isinstance(output, dict):
         raise ValueError("Expecting a comma-delimited str or YAML dictionary")
     return output
